@@ -36,9 +36,17 @@ def bounds(ctx):
          dict(Adaptives=[True, False], Screenings=[True], Windows=[1], RetrySet=[1], MulExps=[1], Deltas=[0, 1024],
               MaxIters=[1, 2], Kicks=[1, 3], MaxSteps=3, MaxRefusals=2 if q else 3), sc.INV_C12 + sc.INV_C13,
          sc.PROP_C12 + sc.PROP_C13, ACTIONS + ["Links", "Induced"]),
+        # the window rule across steps that each take several screening iterations: one delta per SOLVE STEP (the last
+        # iteration's answer against the step's old |psi|^2), with deltas that differ between iterations
+        ("StepCtl[C12 window 2 over steps with several screening iterations]",
+         dict(Adaptives=[True], Screenings=[True], Windows=[2], RetrySet=[1], MulExps=[1], Deltas=[0, 1024, 16384],
+              MaxIters=[1] if q else [1, 2], Kicks=[1, 3], MaxSteps=4 if q else 5, MaxRefusals=1), sc.INV_C12 + sc.INV_C13,
+         sc.PROP_C12 + sc.PROP_C13, ACTIONS + ["Links", "Induced"]),
     ]
     small = dict(Adaptives=[True], Windows=[1], RetrySet=[0, 1], MulExps=[1], Deltas=D4, MaxSteps=5, MaxRefusals=4)
-    canaries = [("MSliceExtra", small, "TentativeFollowsWindowRule"), ("MClipInit", small, "TentativeFollowsWindowRule"),
+    scr2 = dict(Adaptives=[True], Screenings=[True], Windows=[2], RetrySet=[0], MulExps=[1], Deltas=[0, 1024, 16384],
+                MaxIters=[1], Kicks=[1, 3], MaxSteps=4, MaxRefusals=0)
+    canaries = [("MEntryPerIteration", scr2, "TentativeFollowsWindowRule"), ("MSliceExtra", small, "TentativeFollowsWindowRule"), ("MClipInit", small, "TentativeFollowsWindowRule"),
                 ("MWarmupRule", small, "TentativeFollowsWindowRule"), ("MNeverRaise", small, "RetriesExhaustedRaises"),
                 ("MNeverRaise", small, "RetriesBounded"), ("MMulFirst", small, "ReturnedDtIsAnswered")]
     exports = [
@@ -51,6 +59,7 @@ def bounds(ctx):
         ("non-adaptive", dict(Adaptives=[False], InitEs=[4, 6], Deltas=[0, 1024], MaxSteps=4, MaxRefusals=1)),
         ("screening", dict(Adaptives=[True], Screenings=[True], Windows=[1], RetrySet=[1], MulExps=[1], Deltas=[0, 1024],
                            MaxIters=[1], Kicks=[1, 3], MaxSteps=3, MaxRefusals=2)),
+        ("screening window 2", dict(scr2, MaxSteps=4 if q else 5)),
     ]
     return models, canaries, exports
 
@@ -74,6 +83,12 @@ def natural_matrix(ctx):
         # screening with retries: dt is kept across the iterations of a step
         dict(dev="bar", screening=True, tol=1e-2, dt_init=2.0 ** -3, dt_max=1.0, window=2, current=12.0, field=1.0,
              solve_time=0.6, k=50),
+        # adaptive + screening with a proposal that is NOT clipped and dynamics that change from step to step: the
+        # window must hold one delta per solve step, however many screening iterations a step took
+        dict(dev="bar", screening=True, tol=1e-2, alpha=0.5, beta=0.5, dt_init=2.0 ** -8, dt_max=0.25, window=4,
+             current=20.0, field=1.0, solve_time=1.0, k=50),
+        dict(dev="barhole", screening=True, tol=1e-2, alpha=0.5, beta=0.5, dt_init=2.0 ** -8, dt_max=0.25, window=2,
+             current=25.0, field=1.5, solve_time=1.0, k=50),
     ]
     if ctx.quick:
         return base
@@ -90,6 +105,10 @@ def natural_matrix(ctx):
                         retries=retries, multiplier=0.5, k=50))
     for dev in ("film", "ring", "barhole"):
         out.append(dict(dev=dev, dt_init=2.0 ** -7, dt_max=1.0, window=5, solve_time=12.0, k=50))
+    out.append(dict(dev="bar", screening=True, tol=1e-3, alpha=0.3, beta=0.8, dt_init=2.0 ** -7, dt_max=0.5, window=3,
+                    current=25.0, field=0.5, solve_time=0.8, k=50))
+    out.append(dict(dev="tee", screening=True, tol=1e-2, dt_init=2.0 ** -8, dt_max=0.25, window=5, current=25.0, field=1.0,
+                    solve_time=0.8, k=50))
     return out
 
 
@@ -126,6 +145,13 @@ def run(ctx):
     if not (sum(s["refusals"] for s in st) > 50 and "euler" in raised and sum(s["rule_steps"] for s in st) > 50
             and any(s["max_retries_in_a_step"] >= 3 for s in st)):
         raise core.MachineryFailure(f"natural runs did not exercise retries / the rule / exhaustion: {st} {raised}")
+    if not any(t["params"].get("screening") and t["params"].get("adaptive", True) and s["unclipped_rule_steps"] >= 5
+               and s["max_screening_iterations"] >= 2 for t, s in zip(ntraces, st)):
+        raise core.MachineryFailure(f"no adaptive + screening natural run with an unclipped window rule: {st}")
+    if not any(t["cfg"]["screening"] and t["cfg"]["adaptive"] and t["cfg"]["window"] >= 2
+               and sum(1 for e in t["ev"] if e["ev"] == "induced") > sum(1 for e in t["ev"] if e["ev"] == "return") >= 4
+               for t in straces):
+        raise core.MachineryFailure("no scripted replay applies the window rule (window >= 2) over steps with several screening iterations")
     if not (any(t["ev"][-1]["ev"] == "raise" for t in straces) and any(t["overrun"] == 0 and t["unused"] == 0 for t in straces)):
         raise core.MachineryFailure("scripted replays never raised or never consumed their script")
     undriven = [t for t in ntraces if not t["params"].get("current") and t["params"].get("adaptive", True)]
